@@ -448,6 +448,15 @@ func genExact(r *rng, c genCfg) *scenario {
 			}
 		}
 	}
+	if target.Form != "built" && r.chance(1, 6) {
+		// a converter with the very Go signature of the target (function vertices are keyed by their type): the exact
+		// values still go to the target, and nothing else runs
+		twin := *target
+		twin.ID = len(sc.Funcs)
+		twin.Once = false
+		sc.Funcs = append(sc.Funcs, &twin)
+		convIDs = append(convIDs, twin.ID)
+	}
 	for _, id := range convIDs {
 		kind := "conv"
 		if sc.Funcs[id].Once || sc.Funcs[id].Form == "built" || r.chance(1, 2) {
